@@ -524,6 +524,93 @@ Definition pos_eqb (a b : nat * nat) : bool := Nat.eqb (fst a) (fst b) && Nat.eq
 Definition poss_eqb : list (nat * nat) -> list (nat * nat) -> bool := list_eqb pos_eqb.
 Definition listZ_eqb : list Z -> list Z -> bool := list_eqb Z.eqb.
 
+Definition texts_ok (t : bytes) (ms : list rmatch) : bool :=
+  forallb (fun m => bytes_eqb (m_text m) (slice t (m_s m) (m_e m))) ms.
+
+(* ---- one re: call of a sequence ----
+   The result of a call is a function of its own arguments and of the match
+   list a freshly compiled engine (exactly the requested flags) gives for its
+   own pattern and subject; nothing an earlier call did can enter. *)
+Inductive rop := OpFind | OpSplit | OpReplaceLit | OpReplaceTpl | OpMatch.
+Record rcall := mkCall {
+  rc_op : rop; rc_p : bytes; rc_t : bytes;   (* builtin, pattern, subject *)
+  rc_max : Z; rc_repl : bytes;                (* max option (find, split); replacement *)
+  rc_longest : bool; rc_posix : bool }.       (* the longest and posix options *)
+Inductive rresult :=
+| XMatches (ms : list rmatch) | XPieces (l : list bytes) | XString (b : bytes) | XBool (b : bool)
+| XFail                (* the pattern does not compile *)
+| XOther.              (* anything else the harness saw *)
+
+(* fresh = None: the pattern does not compile with the requested flags *)
+Definition run_call (c : rcall) (fresh : option (list rmatch)) : rresult :=
+  match fresh with
+  | None => XFail
+  | Some ms =>
+    match rc_op c with
+    | OpFind => XMatches (firstn_max (rc_max c) ms)
+    | OpSplit => XPieces (re_split (rc_max c) (rc_p c) (rc_t c) (map pos_of ms))
+    | OpReplaceLit => XString (re_replace_lit (rc_repl c) (rc_t c) ms)
+    | OpReplaceTpl => XString (re_replace_tpl (rc_repl c) (rc_t c) ms)
+    | OpMatch => XBool (negb (is_nil ms))
+    end
+  end.
+
+(* the same with the declarative split / replace *)
+Definition spec_call (c : rcall) (fresh : option (list rmatch)) : rresult :=
+  match fresh with
+  | None => XFail
+  | Some ms =>
+    match rc_op c with
+    | OpFind => XMatches (firstn_max (rc_max c) ms)
+    | OpSplit => XPieces (re_split_spec (rc_max c) (rc_p c) (rc_t c) (map pos_of ms))
+    | OpReplaceLit =>
+      XString (re_replace_spec (rc_t c) (map pos_of ms) (map (fun _ => rc_repl c) ms))
+    | OpReplaceTpl =>
+      XString (re_replace_spec (rc_t c) (map pos_of ms)
+                 (map (fun m => expand (rc_repl c) (rc_t c) (m_groups m)) ms))
+    | OpMatch => XBool (negb (is_nil ms))
+    end
+  end.
+
+(* a sequence of calls against an engine: every call is answered on its own *)
+Section Seq.
+  Variable engine : bytes -> bool -> bool -> bytes -> option (list rmatch).
+  Definition fresh_of (c : rcall) : option (list rmatch) :=
+    engine (rc_p c) (rc_longest c) (rc_posix c) (rc_t c).
+  Definition run_seq (cs : list rcall) : list rresult :=
+    map (fun c => run_call c (fresh_of c)) cs.
+End Seq.
+
+Definition groups_eqb : list (Z * Z) -> list (Z * Z) -> bool :=
+  list_eqb (fun a b => Z.eqb (fst a) (fst b) && Z.eqb (snd a) (snd b)).
+Definition rmatch_eqb (a b : rmatch) : bool :=
+  Nat.eqb (m_s a) (m_s b) && Nat.eqb (m_e a) (m_e b) && bytes_eqb (m_text a) (m_text b)
+  && groups_eqb (m_groups a) (m_groups b).
+Definition rresult_eqb (a b : rresult) : bool :=
+  match a, b with
+  | XMatches x, XMatches y => list_eqb rmatch_eqb x y
+  | XPieces x, XPieces y => list_bytes_eqb x y
+  | XString x, XString y => bytes_eqb x y
+  | XBool x, XBool y => Bool.eqb x y
+  | XFail, XFail | XOther, XOther => true
+  | _, _ => false
+  end.
+
+(* one step of an observed sequence: the call, what a fresh engine finds for
+   it, what the implementation answered *)
+Record rstep := mkStep { st_call : rcall; st_fresh : option (list rmatch); st_obs : rresult }.
+
+Definition fresh_ok (c : rcall) (fresh : option (list rmatch)) : bool :=
+  match fresh with
+  | Some ms => wf_matches (rc_t c) (map pos_of ms) && texts_ok (rc_t c) ms
+  | None => true
+  end.
+Definition step_oracle (st : rstep) : bool :=
+  fresh_ok (st_call st) (st_fresh st)
+  && rresult_eqb (st_obs st) (spec_call (st_call st) (st_fresh st)).
+Definition step_corr (st : rstep) : bool :=
+  rresult_eqb (st_obs st) (run_call (st_call st) (st_fresh st)).
+
 Inductive case :=
 (* str:split &max=max sep s  and  str:join sep [(str:split &max=max sep s)] *)
 | CSplit (max : Z) (sep s : bytes) (out : list bytes) (joined : res)
@@ -553,13 +640,13 @@ Inductive case :=
    re:replace &literal repl, re:replace tpl *)
 | CRegex (p t : bytes) (max : Z) (repl tpl : bytes)
          (full : list rmatch) (fmax : list (nat * nat))
-         (split_all split_max : list bytes) (rep_lit rep_tpl : bytes).
+         (split_all split_max : list bytes) (rep_lit rep_tpl : bytes)
+(* a sequence of re: calls evaluated one after the other in one process *)
+| CSeq (steps : list rstep).
 
 (* ---- the oracle: exactly the laws of the property, on observations ---- *)
 Definition is_ok (r : res) (b : bytes) : bool := res_eqb r (ROk b).
 
-Definition texts_ok (t : bytes) (ms : list rmatch) : bool :=
-  forallb (fun m => bytes_eqb (m_text m) (slice t (m_s m) (m_e m))) ms.
 
 Definition oracle (c : case) : bool :=
   match c with
@@ -616,6 +703,9 @@ Definition oracle (c : case) : bool :=
        | Some r => poss_eqb ms (lit_matches (denote r) t)
        | None => true
        end
+  | CSeq steps =>
+    (* every call answers as a fresh engine would: no call depends on an earlier one *)
+    forallb step_oracle steps
   end.
 
 (* ---- correspondence: the model run on the same inputs ---- *)
@@ -656,6 +746,7 @@ Definition corr (c : case) : bool :=
     && list_bytes_eqb split_max (re_split max p t ms)
     && bytes_eqb rep_lit (re_replace_lit repl t full)
     && bytes_eqb rep_tpl (re_replace_tpl tpl t full)
+  | CSeq steps => forallb step_corr steps
   end.
 
 Definition judge1 (c : case) : N := code (oracle c) (corr c).
